@@ -169,6 +169,7 @@ private:
         if (fn == "init") {
             if (!o) { r.ret = 0; return; }
             if (o->live) { r.unspec = true; o->undefined = true; return; }   // init of a live object: caller misuse
+            if (op.geti("failat") == 1) { r.ret = 0; r.pub = "v0c0"; return; }   // injected allocation failure: inert object
             r.ret = 1; o->live = true; o->keyed = false; o->tweaked = false;
             o->counter.assign(bs, 0); o->used = 0; o->tweak.assign(bs, 0);
             r.pub = "v1c1";
@@ -246,6 +247,7 @@ private:
         if (fn == "init") {
             if (!o) { r.ret = 0; return; }
             if (o->live) { r.unspec = true; o->undefined = true; return; }
+            if (op.geti("failat") == 1) { r.ret = 0; return; }
             r.ret = 1; o->live = true; o->keyed = false; o->tweaked = false;
             return;
         }
